@@ -380,8 +380,69 @@ func FieldRead(v ssa.Value) (base ssa.Value, f *types.Var) {
 		}
 	case *ssa.Field:
 		return x.X, FieldVar(x.X.Type(), x.Field)
+	case *ssa.Call:
+		if b, f, deref := ProtoGetter(x); f != nil && !deref {
+			return b, f
+		}
 	}
 	return nil, nil
+}
+
+// ProtoGetter recognises a call of a generated nil-safe getter (*T).GetF() of a protobuf message: a method
+// named Get+F on a pointer to a struct with a field F whose body reads that field of its receiver and nothing
+// else of it. It returns the receiver, the field, and whether the getter dereferences the field (optional
+// scalars: F is *uint32 and GetF returns uint32).
+func ProtoGetter(call *ssa.Call) (base ssa.Value, f *types.Var, deref bool) {
+	fn := call.Call.StaticCallee()
+	if fn == nil || call.Call.IsInvoke() || fn.Signature.Recv() == nil || len(call.Call.Args) != 1 || fn.Signature.Results().Len() != 1 {
+		return nil, nil, false
+	}
+	name := fn.Name()
+	if !strings.HasPrefix(name, "Get") || len(fn.Blocks) == 0 {
+		return nil, nil, false
+	}
+	pt, ok := fn.Signature.Recv().Type().Underlying().(*types.Pointer)
+	if !ok {
+		return nil, nil, false
+	}
+	st, ok := pt.Elem().Underlying().(*types.Struct)
+	if !ok {
+		return nil, nil, false
+	}
+	var fv *types.Var
+	for i := 0; i < st.NumFields(); i++ {
+		if st.Field(i).Name() == name[3:] {
+			fv = st.Field(i)
+		}
+	}
+	if fv == nil {
+		return nil, nil, false
+	}
+	// the body touches no other field of the receiver, calls nothing and stores nothing
+	clean := true
+	Instrs(fn, func(in ssa.Instruction) {
+		switch x := in.(type) {
+		case *ssa.FieldAddr:
+			if x.X == ssa.Value(fn.Params[0]) && FieldVar(x.X.Type(), x.Field) != fv {
+				clean = false
+			}
+		case *ssa.Call, *ssa.Store, *ssa.Go, *ssa.Defer, *ssa.Send, *ssa.MapUpdate:
+			clean = false
+		}
+	})
+	if !clean {
+		return nil, nil, false
+	}
+	res := fn.Signature.Results().At(0).Type()
+	switch {
+	case types.Identical(res, fv.Type()):
+		return call.Call.Args[0], fv, false
+	default:
+		if p, ok := fv.Type().Underlying().(*types.Pointer); ok && types.Identical(res, p.Elem()) {
+			return call.Call.Args[0], fv, true
+		}
+	}
+	return nil, nil, false
 }
 
 // FieldVar returns the i-th field of the struct (or pointer to struct) type t.
@@ -505,7 +566,19 @@ var sentinelCache sync.Map // *ssa.Global -> bool
 // that are assigned a non-nil value once, in the package initialiser, and nowhere else (error
 // sentinels such as ErrClientClosed, TableNotFound).
 func NonNil(v ssa.Value) bool {
-	switch x := Strip(v).(type) {
+	for {
+		if ct, ok := v.(*ssa.ChangeType); ok {
+			v = ct.X
+		} else if ci, ok := v.(*ssa.ChangeInterface); ok {
+			v = ci.X
+		} else {
+			break
+		}
+	}
+	if _, ok := v.(*ssa.MakeInterface); ok {
+		return true // an interface holding a concrete value, even a nil pointer, is not nil
+	}
+	switch x := v.(type) {
 	case *ssa.MakeInterface, *ssa.Alloc, *ssa.MakeClosure, *ssa.Function, *ssa.MakeMap, *ssa.MakeChan, *ssa.MakeSlice:
 		return true
 	case *ssa.Const:
